@@ -927,6 +927,12 @@ class Module(ABC):
             self.base._module_type == "cell"
             and len(self._branches_in_view) == len(self.base._branches_in_view)
         ), "This is not allowed for cells."
+        # Everything below treats the compartments in view as one entire branch. A
+        # view of several branches, or of some compartments of a branch, left `.nodes`
+        # inconsistent with `ncomp_per_branch` (or raised halfway through).
+        assert len(self._branches_in_view) == 1 and len(self._nodes_in_view) == int(
+            self.base.ncomp_per_branch[self._branches_in_view[0]]
+        ), "`set_ncomp()` must be called on exactly one entire branch, e.g., `cell.branch(1).set_ncomp(4)`."
 
         # Update all attributes that are affected by compartment structure.
         view = self.nodes.copy()
